@@ -7,6 +7,7 @@ import tpcommon as T
 from engine import Op, set_mode
 
 PROP = "C01"
+QUICK_BOOST = 2
 LEAN_MODULES = ["IsoDT.Props.C01", "IsoDT.Props.C01q"]
 RULE = ("time points drawn from boundary lists (year 0/negative/leap/century, month ends, day 365/366, "
         "week 1/52/53, 24:00, offsets incl. -00:30 and +-99:59) x exact durations at unit boundaries; "
@@ -28,6 +29,12 @@ class Add(Op):
         for _ in range(n):
             m = gens.mode(rng)
             yield (m, T.gen_tp(rng, m), T.gen_exact_dur(rng))
+        # from a point near one year boundary to a point near another (the carry leaves the year and lands on its
+        # last / first day, second, ...), in every representation
+        for _ in range(n // 4):
+            m = gens.mode(rng)
+            p, q, d = T.gen_year_edge_pair(rng, m)
+            yield (m, p, d if self.sign > 0 else T.dur_neg(d))
         # the carries that F1 / F2 were about, in every mode
         for m in oracle.MODES:
             for y in (2003, 2004, 1999, 2000, 0, -1, -4):
